@@ -4,7 +4,9 @@ import (
 	"fmt"
 	"math/rand"
 	"sort"
+	"sync"
 
+	"github.com/herohde/morlock/cmd/sargon/sargon"
 	"github.com/herohde/morlock/pkg/board"
 	"github.com/herohde/morlock/pkg/eval"
 
@@ -22,9 +24,10 @@ func init() {
 		Level:     "exploration",
 		Technique: "runtime differential oracle: attack tables vs ray walking (line states enumerated exhaustively), derived queries vs independent rules implementation on generated positions",
 		Rule: "tables: every (square, line kind, 8-bit line state) plus random full occupancies and random Xor sequences, attack set compared with ray walking; " +
-			"derived: generated positions (random playouts from curated starts, synthetic odd-material positions), each checked on 64 squares x 2 colours for IsAttacked/IsDefended/FindCapture, both kings for IsChecked/IsCheckMate, FindPins for king and queen; distinct = distinct (square,kind,occupancy) line states + distinct positions",
+			"derived: generated positions (random playouts from curated starts, synthetic odd-material positions), each checked on 64 squares x 2 colours for IsAttacked/IsDefended/FindCapture, both kings for IsChecked/IsCheckMate, FindPins for king and queen and the pin table SARGON builds from it; parallel: the derived checks from six goroutines at once (race build); distinct = distinct (square,kind,occupancy) line states + distinct positions",
 		Assumptions: []string{"reference ray walker (package ref), validated against published perft numbers at start-up"},
 		Exhaustive:  func(string) bool { return false },
+		RaceKinds:   map[string]bool{"parallel": true},
 		Setup:       validateOracle,
 		Timeout:     minutes(10, 60),
 		Cases: func(tier string, seed int64) []fw.Case {
@@ -37,10 +40,11 @@ func init() {
 			l = mkCases(l, "occ", 16, seed, pick(tier, 4000, 400000))
 			l = mkCases(l, "xor", 16, seed, pick(tier, 2000, 200000))
 			l = mkCases(l, "derived", 32, seed, pick(tier, 400, 40000))
+			l = mkCases(l, "parallel", 4, seed, pick(tier, 60, 3000))
 			return l
 		},
 		Floors: func(tier string) map[string]int64 {
-			return map[string]int64{"line_states": 40000, "derived_positions": 1000, "pins_found": 50, "checks_seen": 20, "mates_seen": 1, "captures_found": 1000, "ep_only_defence_positions": 8, "double_pin_shapes": 500}
+			return map[string]int64{"line_states": 40000, "derived_positions": 1000, "pins_found": 50, "checks_seen": 20, "mates_seen": 1, "captures_found": 1000, "ep_only_defence_positions": 8, "double_pin_shapes": 500, "parallel_positions": 1000, "pin_tables_with_two_pinned": 50}
 		},
 		Run: runC06,
 	})
@@ -203,6 +207,26 @@ func runC06(c *fw.Ctx, cs fw.Case) {
 			}
 			c.Count("xor_sequences", 1)
 		}
+	case "parallel":
+		// the queries are pure functions of the position: several goroutines asking at once (engines searching
+		// side by side do) must each get the answers they get alone; run on the race build
+		var wg sync.WaitGroup
+		for g := 0; g < 6; g++ {
+			wg.Add(1)
+			go func(g int) {
+				defer wg.Done()
+				r := rand.New(rand.NewSource(fw.Mix(cs.Seed, int64(g)+1000)))
+				for i := 0; i < cs.N; i++ {
+					h := randomHist(r, 60)
+					if i%3 == 1 {
+						h = gen.Hist{Start: gen.TacticOK(r, r.Intn(gen.NumTactics))}
+					}
+					derivedChecks(c, h.Final())
+					c.Count("parallel_positions", 1)
+				}
+			}(g)
+		}
+		wg.Wait()
 	case "derived":
 		r := cs.Rand()
 		if p, ok := gen.EPOnlyDefence(r); ok {
@@ -299,6 +323,49 @@ func derivedChecks(c *fw.Ctx, p ref.Pos) {
 			if fmt.Sprint(gs) != fmt.Sprint(ws) {
 				c.Violate("derived:FindPins", "FindPins(%v,kind %d)=%v want %v in %s", col, kind, gs, ws, fen)
 			}
+		}
+	}
+	// the pin table SARGON derives from the same query (pinned square -> pinning squares, queen-on-queen omitted)
+	{
+		want := map[int][]int{}
+		for _, white := range []bool{true, false} {
+			for _, kind := range []int{ref.King, ref.Queen} {
+				for _, pn := range p.Pins(white, kind) {
+					a, t := p.B[pn.Attacker], p.B[pn.Target]
+					if a < 0 {
+						a = -a
+					}
+					if t < 0 {
+						t = -t
+					}
+					if a == t {
+						continue
+					}
+					want[pn.Pinned] = append(want[pn.Pinned], pn.Attacker)
+				}
+			}
+		}
+		got := map[int][]int{}
+		for sq, l := range sargon.FindKingQueenPins(pos) {
+			for _, a := range l {
+				got[adapt.RSq(sq)] = append(got[adapt.RSq(sq)], adapt.RSq(a))
+			}
+		}
+		str := func(m map[int][]int) string {
+			var l []string
+			for k, v := range m {
+				sort.Ints(v)
+				l = append(l, fmt.Sprintf("%d<-%v", k, v))
+			}
+			sort.Strings(l)
+			return fmt.Sprint(l)
+		}
+		c.Eval(1)
+		if len(want) >= 2 {
+			c.Count("pin_tables_with_two_pinned", 1)
+		}
+		if str(got) != str(want) {
+			c.Violate("derived:pin-table", "sargon.FindKingQueenPins=%v want %v in %s", str(got), str(want), fen)
 		}
 	}
 	// attack queries restricted to piece subsets (used by the historical engines)
